@@ -94,7 +94,7 @@ func genScript(seed int64, k int, mode string) *script {
 		return sc
 	}
 	for i := 0; i < r.Intn(5); i++ {
-		sc.Steps = append(sc.Steps, step{Kind: []string{"badack", "badack", "badack", "dupsyn", "wait", "data", "rst-out", "othersyn", "rst-in"}[r.Intn(9)]})
+		sc.Steps = append(sc.Steps, step{Kind: []string{"badack", "badack", "badack", "dupsyn", "wait", "data", "rst-out", "othersyn", "rst-in", "crossack-port", "crossack-addr"}[r.Intn(11)]})
 	}
 	if r.Chance(4, 5) {
 		sc.Steps = append(sc.Steps, step{Kind: "goodack"})
@@ -328,6 +328,34 @@ func runPassive(e *env, sc *script) {
 				}
 				run.Count("bad_handshake_acks_judged", 1)
 			}
+		case "crossack-port", "crossack-addr":
+			// the exact acknowledgement, but from a peer that never sent a SYN
+			if !haveY {
+				continue
+			}
+			t := base
+			t.Seq, t.Ack, t.Flags = x+1, y+1, rfc.ACK
+			if tsOK {
+				t.RawOpts = append([]byte{1, 1}, rfc.OptTS(tsval+1, tsecr)...)
+			}
+			saved4, saved6 := e.p.Peer4, e.p.Peer6
+			if st.Kind == "crossack-port" {
+				t.SrcPort = pport + 1 + uint16(r.Intn(100))
+			} else {
+				e.p.Peer4[3] ^= byte(1 + r.Intn(200))
+				e.p.Peer6[15] ^= byte(1 + r.Intn(200))
+			}
+			e.p.Send(t)
+			e.p.Peer4, e.p.Peer6 = saved4, saved6
+			e.p.Take()
+			tr("%s from port %d", st.Kind, t.SrcPort)
+			if ne, _, aerr := lep.Accept(); aerr == nil {
+				ra, _ := ne.GetRemoteAddress()
+				viol("passive/accept-from-stranger", fmt.Sprintf("%s mode: an ACK carrying the handshake's numbers but sent from %v:%d, which never sent a SYN, produced a connection", sc.Mode, []byte(ra.Addr), ra.Port), sc, trace)
+				ne.Close()
+				return
+			}
+			run.Count("cross_tuple_acks_judged", 1)
 		case "rst-in":
 			t := base
 			t.Seq, t.Flags = x+1, rfc.RST
